@@ -289,6 +289,9 @@ def impl_cmd(impl, component):
 
 # ----------------------------------------------------------------------------- running
 
+FLAKES = []   # batch crashes that did not repeat in isolation (reported in the evidence file)
+
+
 def run_lines(cmd, text, timeout):
     try:
         p = subprocess.run(cmd, input=text, stdout=subprocess.PIPE, stderr=subprocess.PIPE, text=True,
@@ -323,6 +326,17 @@ def run_impl(impl, component, cases, timeout=600):
                 done.append(i)
             else:
                 reason = "TIMEOUT" if err == "TIMEOUT" else ("exit %s: %s" % (rc, " ".join(err.split())[-300:]))
+                # re-run the crashed case alone once: a process that died or hung for a reason outside the case
+                # (machine overload, a neighbour's goroutine) does not repeat; a crash the case causes does.
+                text1 = "reset\n" + "".join(op + "\n" for op in cases[i].ops)
+                rc1, lines1, err1 = run_lines(impl_cmd(impl, component), text1, min(timeout, 300))
+                if rc1 == 0 and len(lines1) == n and lines1[0] == "reset":
+                    log("[flake] %s: case crashed (%s) in a batch but completes alone; using the isolated run" % (component, reason[:80]))
+                    FLAKES.append("%s: %s" % (component, reason[:120]))
+                    results[i] = lines1[1:]
+                    done.append(i)
+                    crashed = True
+                    break
                 got = chunk[1:] if chunk and chunk[0] == "reset" else []
                 got = got + ["CRASH " + reason] + ["-"] * (len(cases[i].ops) - len(got) - 1)
                 results[i] = got[:len(cases[i].ops)]
@@ -697,6 +711,7 @@ def check(pid, tier, seed):
             "samples": samples or [{"note": "no cases ran", "broken": broken}],
             "known_findings_hit": sorted(known_hits),
             "gap": getattr(prop, "GAP", ""),
+            "batch_crashes_not_repeated_in_isolation": list(FLAKES),
         },
         "assumptions": list(getattr(prop, "ASSUMPTIONS", [])),
         "wall_s": round(time.time() - t0, 2),
